@@ -167,3 +167,56 @@ def cluster_points(n, cutoff, seed, phase):
     if n >= 3:
         j[2] = j[0] + np.array([1e-4, 0, 0])
     return j
+
+
+# ---------------------------------------------------------------------------------------------------------------
+# Thin, strongly skewed cells (one width only 2-3 cutoffs, angles outside 70..110 in each position and combination)
+# and dense fills (several atoms per voxel).
+
+THIN_ANGLES = ((116.2, 68.4, 63.6), (116, 68, 64), (64, 116, 68), (68, 64, 116), (120, 60, 60), (60, 120, 120))
+THIN_LENGTHS = {"thin-c": (5.73, 4.10, 2.42), "thin-b": (5.73, 2.42, 4.10), "thin-a": (2.42, 5.73, 4.10)}
+
+
+def thin_cells(quick):
+    """Cell dicts like grids.cell_menu (plus thin=True): every angle triple x the short edge in each position
+    (quick: short c and short b), reduced form and with b += a, c += a - b (quick: unreduced only for short c)."""
+    out = []
+    for A in THIN_ANGLES:
+        if not grids.cell_valid(*A):
+            continue
+        for lname, L in THIN_LENGTHS.items():
+            if quick and lname == "thin-a":
+                continue
+            v = grids.lengths_angles_to_vectors(*L, *A)
+            name = "%s(%g,%g,%g)" % ((lname,) + tuple(A))
+            out.append(dict(name=name, vectors=v, lengths=np.array(L, float), angles=np.array(A, float), reduced=True,
+                            ortho=False, thin=True))
+            if quick and lname != "thin-c":
+                continue
+            u = v.copy()
+            u[1] = v[1] + v[0]
+            u[2] = v[2] + v[0] - v[1]
+            Lu, Au = grids.vectors_to_lengths_angles(u)
+            out.append(dict(name=name + "+unreduced", vectors=u, lengths=Lu, angles=Au, reduced=False, ortho=False, thin=True))
+    return out
+
+
+def dense_frac(m, seed, phase):
+    """m x m x m fractional lattice + low-discrepancy jitter of one lattice spacing, inside [0, 1)."""
+    g = np.array(list(itertools.product(range(m), repeat=3)), dtype=np.float64)
+    n = len(g)
+    j = grids.jitter(n * (phase + 1), 3, 1.0 / m, seed)[n * phase:]
+    f = (g + 0.5) / m + j * 0.98
+    assert np.all(f >= 0) and np.all(f < 1)
+    return f
+
+
+def z_window_shares_images(vec32, cutoff):
+    """Emulates getNeighbors' window arithmetic (classification of the input only, never an oracle): True when the z window
+    is clamped to the cell (a z voxel then holds atoms in range through two different images), the c vector leans in y,
+    and the y window does not cover the whole row anyway."""
+    ny, nz, vsy, vsz, v = voxel_geometry_periodic(vec32, cutoff)
+    c = F(cutoff)
+    dz = int(F(c / vsz)) + 1
+    dy = int(F(c / vsy)) + 1
+    return bool(2 * dz + 1 > nz and v[2, 1] != 0 and ny > 2 * min(ny // 2, dy) + 2)
